@@ -35,14 +35,14 @@ Definition scase_dup_exact_violation (c : scase) : bool :=
   negb (select_dup_exact_ok (sc_mr c) (sc_rows c) (sc_fetch c) (sc_obs c)).
 
 (* ---- the seed's witness: label set X under fingerprints 11 and 33, label set Y under 22 (rows ORDER BY fingerprint) ---- *)
-Definition w_rows : list row :=
+Definition dupw_rows : list row :=
   [ {| r_fp := 11; r_val := 101; r_ts := 1000 |}; {| r_fp := 11; r_val := 102; r_ts := 2000 |}; {| r_fp := 11; r_val := 103; r_ts := 3000 |};
     {| r_fp := 22; r_val := 201; r_ts := 1000 |}; {| r_fp := 22; r_val := 202; r_ts := 2000 |}; {| r_fp := 22; r_val := 203; r_ts := 3000 |};
     {| r_fp := 33; r_val := 301; r_ts := 1500 |}; {| r_fp := 33; r_val := 302; r_ts := 2500 |}; {| r_fp := 33; r_val := 303; r_ts := 3500 |} ]%Z%N.
-Definition w_x : labels := [("__name__", "m"); ("job", "x")]%string.
-Definition w_y : labels := [("__name__", "m"); ("job", "y")]%string.
-Definition w_fetch : list fetch_row := [(11%N, w_x); (22%N, w_y); (33%N, w_x)].
+Definition dupw_x : labels := [("__name__", "m"); ("job", "x")]%string.
+Definition dupw_y : labels := [("__name__", "m"); ("job", "y")]%string.
+Definition dupw_fetch : list fetch_row := [(11%N, dupw_x); (22%N, dupw_y); (33%N, dupw_x)].
 (* what Select hands to the engine with one shared sample buffer (seed C17-g, observed by its demo) *)
-Definition w_obs_shared_buffer : list out_series :=
-  [ {| o_labels := w_x; o_fp := 11; o_samples := [(1000, 101); (1500, 301); (2000, 102); (2500, 302); (3000, 103); (3500, 303)] |};
-    {| o_labels := w_y; o_fp := 22; o_samples := [(2500, 302); (3000, 103); (3500, 303)] |} ]%Z%N.
+Definition dupw_obs_shared_buffer : list out_series :=
+  [ {| o_labels := dupw_x; o_fp := 11; o_samples := [(1000, 101); (1500, 301); (2000, 102); (2500, 302); (3000, 103); (3500, 303)] |};
+    {| o_labels := dupw_y; o_fp := 22; o_samples := [(2500, 302); (3000, 103); (3500, 303)] |} ]%Z%N.
